@@ -47,3 +47,11 @@ package types
 //@   invariant @loop 0: 0 <= $k && $k <= len(signers) && m != nil && fresh(m) && unchanged(signers)
 //@   invariant @loop 0: forall(i, 0, $k, has(m, signers[i].Address))
 //@   invariant @loop 0: forallKeys(a, m, exists(i, 0, $k, signers[i].Address == a && m[a] == signers[i].Weight))
+
+// the three signer kinds are stateless values; the constructors are functions without arguments
+//@ func MakeSigner   pure trusted
+//@   ensures result != nil
+//@ func MakeGasPayerSigner   pure trusted
+//@   ensures result != nil
+//@ func MakeReimbursementTxSigner   pure trusted
+//@   ensures result != nil
